@@ -26,13 +26,16 @@ def anc_closure(edges, classes):
     return anc
 
 
-POLS = {0: None, 1: "vpol1", 2: "vpol2", 3: "vpol3", 4: "vpol4", 5: "vpol5"}
+POLS = {0: None, 1: "vpol1", 2: "vpol2", 3: "vpol3", 4: "vpol4", 5: "vpol5", 6: "vpol6"}
 # policies 3 and 4 use custom type ids carried by the classes themselves (static member kid, virtual function vid()):
 # 3: eager ids that differ only above bit 31, perfect hash; 4: deferred ids (assigned at run time, before update), pointer map
-CUSTOM_IDS = (3, 4)
+# 6: small integer ids that start at 0 (the smallest class number of the program's policy-6 scenarios gets id 0), perfect hash
+CUSTOM_IDS = (3, 4, 6)
 
 
 def kid_of(pol, c):
+    if pol == 6:
+        return "(%d - VPOL6_BASE)" % c
     return "((std::size_t(%d) << 32) | 16)" % c if pol == 3 else str(16 * c)
 
 
@@ -167,7 +170,7 @@ def scenario(idx, classes, edges, statements, methods, defs, abstract=(), shapes
         mf = " ".join("int mf%d_%d(%s);" % (m, d, _dparams(shape_of(m, mvp0[m]), vp, pol, True)) for m, d, vp in members.get(c, []))
         ids = ""
         if pol in CUSTOM_IDS:
-            ids = "inline static std::size_t kid = %s; virtual std::size_t vid() const { return kid; }" % (kid_of(pol, c) if pol == 3 else "0")
+            ids = "inline static std::size_t kid = %s; virtual std::size_t vid() const { return kid; }" % (kid_of(pol, c) if pol != 4 else "0")
         o.append("struct K%d%s { int tag%d = %d; virtual ~K%d() {} %s %s %s };" % (c, (" : " + bases) if bases else "", c, c, c, pure, mf, ids))
     # registration statements: before the methods and definitions, or (late_reg) after them -- the order of appearance in
     # the translation unit is the order in which the registration objects are constructed
@@ -335,13 +338,14 @@ CUSTOM_RTTI = r'''
 template<class T, class = void> struct has_kid : std::false_type {};
 template<class T> struct has_kid<T, std::void_t<decltype(T::kid)>> : std::true_type {};
 template<class Base> struct kid_rtti : Base {
-    template<typename T> static type_id static_type() { if constexpr (has_kid<T>::value) return T::kid; else return 1; }
-    template<typename T> static type_id dynamic_type(const T& obj) { if constexpr (has_kid<T>::value) return obj.vid(); else return 1; }
+    template<typename T> static type_id static_type() { if constexpr (has_kid<T>::value) return T::kid; else return 0xFFFFFFu; }
+    template<typename T> static type_id dynamic_type(const T& obj) { if constexpr (has_kid<T>::value) return obj.vid(); else return 0xFFFFFFu; }
     template<class Stream> static void type_name(type_id t, Stream& s) { s << "kid#" << t; }
     template<typename D, typename B> static D dynamic_cast_ref(B&& obj) { return dynamic_cast<D>(obj); }
 };
 struct vpol3 : policy::basic_policy<vpol3, kid_rtti<policy::rtti>, policy::fast_perfect_hash<vpol3>, policy::vptr_vector<vpol3>, policy::vectored_error<vpol3>> {};
 struct vpol4 : policy::basic_policy<vpol4, kid_rtti<policy::deferred_static_rtti>, policy::vptr_map<vpol4>, policy::vectored_error<vpol4>> {};
+struct vpol6 : policy::basic_policy<vpol6, kid_rtti<policy::rtti>, policy::fast_perfect_hash<vpol6>, policy::vptr_vector<vpol6>, policy::vectored_error<vpol6>> {};
 struct vpol5 : policy::basic_policy<vpol5, policy::std_rtti, policy::fast_perfect_hash<vpol5>, policy::vptr_vector<vpol5>, policy::basic_indirect_vptr<vpol5>, policy::vectored_error<vpol5>> {};
 '''
 
@@ -360,6 +364,8 @@ def program(name, scenarios, staged=False):
         o.append("#include <fstream>\n#include <yorel/yomm2/generator.hpp>\n#include <yorel/yomm2/decode.hpp>")
     o.append("struct vpol1 : default_policy::rebind<vpol1> {};")
     o.append("struct vpol2 : policy::basic_policy<vpol2, policy::std_rtti, policy::vptr_map<vpol2>, policy::vectored_error<vpol2>> {};")
+    base6 = [min(sc[1]) for sc in scenarios if (sc[8] if len(sc) > 8 and sc[8] else {}).get("pol", 0) == 6]
+    o.append("#define VPOL6_BASE %d" % (min(base6) if base6 else 0))
     o.append(CUSTOM_RTTI)
     if not staged:
         for sc in scenarios:
